@@ -26,6 +26,7 @@ func cmdCheck(args []string) int {
 		usage()
 	}
 	prop := args[0]
+	list := false
 	env := core.EnvFromOS(prop)
 	env.SetTier(env.Tier)
 	for i := 1; i < len(args); i++ {
@@ -37,6 +38,8 @@ func cmdCheck(args []string) int {
 			}
 		case "-v":
 			env.Verbose = true
+		case "-l":
+			list = true
 		}
 	}
 	t0 := time.Now()
@@ -79,6 +82,11 @@ func cmdCheck(args []string) int {
 	replay := func(o *core.Obl) {
 		if r := replayers[o.ReplayKind]; r != nil {
 			r(env, p, prop, o)
+		}
+	}
+	if list {
+		for _, o := range res.Obls {
+			fmt.Printf("  %-11s %-8s %s\n", o.Status, o.Tier, o.Name)
 		}
 	}
 	v := core.Decide(env, cf, res, replay)
